@@ -271,10 +271,14 @@ func genWellFormed(t *rapid.T, wt int) []byte {
 		b := binary.AppendUvarint(nil, uint64(n))
 		return append(b, rapid.SliceOfN(rapid.Byte(), n, n).Draw(t, "body")...)
 	default: // WTSlice
-		cnt := rapid.IntRange(0, 5).Draw(t, "count")
+		cnt := pickInt(t, "count", []int{0, 1, 2, 3, 5, 127, 128, 129, 300})
 		b := binary.AppendUvarint(nil, uint64(cnt))
 		for i := 0; i < cnt; i++ {
-			n := pickInt(t, "elen", []int{0, 1, 3, 127, 128})
+			lens := []int{0, 1, 3, 127, 128}
+			if cnt > 5 {
+				lens = []int{0, 1, 2}
+			}
+			n := pickInt(t, "elen", lens)
 			b = binary.AppendUvarint(b, uint64(n))
 			b = append(b, rapid.SliceOfN(rapid.Byte(), n, n).Draw(t, "ebody")...)
 		}
